@@ -1,8 +1,11 @@
 package astvalidation
 
 import (
+	"bytes"
+
 	"github.com/wundergraph/graphql-go-tools/v2/pkg/ast"
 	"github.com/wundergraph/graphql-go-tools/v2/pkg/astvisitor"
+	"github.com/wundergraph/graphql-go-tools/v2/pkg/lexer/literal"
 	"github.com/wundergraph/graphql-go-tools/v2/pkg/operationreport"
 )
 
@@ -29,6 +32,13 @@ func (s *subscriptionSingleRootFieldVisitor) EnterDocument(operation, definition
 			} else if selections == 1 {
 				ref := operation.SelectionSets[operation.OperationDefinitions[i].SelectionSet].SelectionRefs[0]
 				if operation.Selections[ref].Kind == ast.SelectionKindField {
+					// "__internal_typename" is the placeholder normalization leaves for a statically skipped selection
+					if fieldName := operation.FieldNameBytes(operation.Selections[ref].Ref); len(fieldName) > 1 && fieldName[0] == '_' && fieldName[1] == '_' &&
+						!bytes.Equal(operation.FieldAliasOrNameBytes(operation.Selections[ref].Ref), literal.INTERNAL_TYPENAME) {
+						subscriptionName := operation.Input.ByteSlice(operation.OperationDefinitions[i].Name)
+						s.StopWithExternalErr(operationreport.ErrSubscriptionMustNotSelectIntrospectionRootField(subscriptionName, fieldName))
+						return
+					}
 					return
 				}
 			}
